@@ -137,6 +137,30 @@ func (sc *c15Scenario) Check(w *simWorld, last *simEvent) {
 	// export clean (and import clean, otherwise the Loc-RIB itself is not what the current policy
 	// would give and "export of the Loc-RIB" is still well defined but about the old import state —
 	// the C01 oracle is about the Loc-RIB as it is, so it applies whenever export is clean)
+	if !sc.expDirty && sc.exp != 0 {
+		// vacuity guard: is the export policy in force and does it do anything here?
+		for _, b := range w.bots {
+			p := w.peer(b)
+			if p == nil || p.State() != bgp.BGP_FSM_ESTABLISHED {
+				continue
+			}
+			for _, f := range p.negotiatedRFList() {
+				for _, path := range w.s.getPossibleBest(p, f) {
+					pre, opts, stop := w.s.prePolicyFilterpath(p, path, nil)
+					if stop || pre == nil {
+						continue
+					}
+					opts.Validate = w.s.roaTable.Validate
+					out := p.policy.ApplyPolicy(p.TableID(), table.POLICY_DIRECTION_EXPORT, pre, opts)
+					if out == nil {
+						w.stat("export-policy-rejects-a-route")
+					} else if simAttrCanon(out.GetPathAttrs(), nil) != simAttrCanon(pre.GetPathAttrs(), nil) {
+						w.stat("export-policy-modifies-a-route")
+					}
+				}
+			}
+		}
+	}
 	if !sc.expDirty {
 		n0 := len(w.viol)
 		sc.simRoutesScenario.checkExport(w, last)
@@ -198,7 +222,11 @@ func (sc *c15Scenario) checkImport(w *simWorld) {
 		for _, path := range p.adjRibIn.PathList(p.configuredRFlist(), true) {
 			out := w.s.policy.ApplyPolicy(table.GLOBAL_RIB_NAME, table.POLICY_DIRECTION_IMPORT, path, &table.PolicyOptions{Info: p.peerInfo.Load(), Validate: w.s.roaTable.Validate})
 			if out == nil {
+				w.stat("import-policy-rejects-a-route")
 				continue
+			}
+			if simAttrCanon(out.GetPathAttrs(), nil) != simAttrCanon(path.GetPathAttrs(), nil) {
+				w.stat("import-policy-modifies-a-route")
 			}
 			want[fmt.Sprintf("%s|%s|%s|%d", out.GetFamily(), out.GetNlri(), b.addr(), out.RemoteID())] = simAttrCanon(out.GetPathAttrs(), nil)
 		}
@@ -250,6 +278,11 @@ func TestVerif_C15_Sim(t *testing.T) {
 		deep = 7
 	}
 	simExplore(t, r, simExploreCfg{Scenario: "softreset", Arg: "cfg=ea;npfx=1;nvar=4;src=1;pols=02;norr;importonly", Depth: deep, Budget: budget})
+	for _, k := range []string{"import-policy-rejects-a-route", "import-policy-modifies-a-route", "export-policy-rejects-a-route", "export-policy-modifies-a-route"} {
+		if r.Outcomes[k] == 0 && len(r.Violations) == 0 {
+			t.Fatalf("ENGINE-ERROR vacuous exploration: no state in which %s: %v", k, r.Outcomes)
+		}
+	}
 	if r.Outcomes["import-nonempty"] == 0 || r.Outcomes["export-nonempty"] == 0 || r.Outcomes["clean-reset-checked"] == 0 {
 		t.Fatalf("ENGINE-ERROR vacuous exploration %v", r.Outcomes)
 	}
